@@ -16,8 +16,19 @@ def listing_lines(lines):
 
 def read_listings(hv, cases, workdir):
     """cases: list of dict(file=bytes of the binary file, lines=[listing line bytes]).
-    -> list of dict(read 'ok' | ('reject', index), verdict 'ok'|'FAIL'|'skip', items [str], consistent bool), None when the file is malformed"""
-    path = os.path.join(workdir, 'listcheck_cases.txt')
+    -> list of dict(read 'ok' | ('reject', index), verdict 'ok'|'FAIL'|'skip', items [str], consistent bool), None when the file is malformed.
+    Sharded over the cores (1500 cases per call of the extracted reader)."""
+    import concurrent.futures
+    shards = [(k, cases[k:k + 1500]) for k in range(0, len(cases), 1500)]
+    out = [None] * len(cases)
+    with concurrent.futures.ThreadPoolExecutor(max_workers=min(vlib.NCPU, max(1, len(shards)))) as ex:
+        for k, res in ex.map(lambda sh: (sh[0], _read_listings_chunk(hv, sh[1], workdir, sh[0])), shards):
+            out[k:k + len(res)] = res
+    return out
+
+
+def _read_listings_chunk(hv, cases, workdir, tag):
+    path = os.path.join(workdir, 'listcheck_cases_%d.txt' % tag)
     idx = []
     with open(path, 'w') as f:
         for k, c in enumerate(cases):
@@ -66,16 +77,30 @@ def python_items(lines):
 
 
 def model_text(hv, sources, workdir, timeout=1800):
-    """the model's listing of every source, printed by the Coq printer AsmListingRead.listing_lines: list of [line bytes] or None (rejected)"""
-    cf = os.path.join(workdir, 'listtext_cases.bin')
-    A.write_casefile(cf, sources)
-    rc, out, err = run3(vlib.big_stack([hv, 'asmlisttext', cf]), cwd=workdir, timeout=timeout)
-    d = A.split_cases(out.decode('latin1'))
-    res = []
-    for i in range(len(sources)):
-        ls = d.get(i)
-        if ls is None or ls[:1] == ['REJECT']:
-            res.append(None)
-        else:
-            res.append([l[2:].encode('latin1') for l in ls if l.startswith('L ')])
-    return res, rc, err.decode('latin1')[-300:]
+    """the model's listing of every source, printed by the Coq printer AsmListingRead.listing_lines: list of [line bytes] or None (rejected).
+    Sharded over the cores (1500 sources per call) so that the thorough tier stays inside the time limit of one call."""
+    import concurrent.futures
+    shards = [(k, sources[k:k + 1500]) for k in range(0, len(sources), 1500)]
+
+    def one(sh):
+        k, srcs = sh
+        cf = os.path.join(workdir, 'listtext_cases_%d.bin' % k)
+        A.write_casefile(cf, srcs)
+        rc, out, err = run3(vlib.big_stack([hv, 'asmlisttext', cf]), cwd=workdir, timeout=timeout)
+        d = A.split_cases(out.decode('latin1'))
+        res = []
+        for i in range(len(srcs)):
+            ls = d.get(i)
+            if ls is None or ls[:1] == ['REJECT']:
+                res.append(None)
+            else:
+                res.append([l[2:].encode('latin1') for l in ls if l.startswith('L ')])
+        return k, res, rc, err.decode('latin1')[-300:]
+    out = [None] * len(sources)
+    worst_rc, worst_err = 0, ''
+    with concurrent.futures.ThreadPoolExecutor(max_workers=min(vlib.NCPU, max(1, len(shards)))) as ex:
+        for k, res, rc, err in ex.map(one, shards):
+            out[k:k + len(res)] = res
+            if rc != 0:
+                worst_rc, worst_err = rc, err
+    return out, worst_rc, worst_err
